@@ -1,6 +1,7 @@
 package fdosim
 
 import (
+	"bytes"
 	"context"
 	"crypto"
 	"crypto/x509"
@@ -83,7 +84,7 @@ func (p *c04) Prepare(t *testing.T, tier string, seed uint64) {
 					b := base
 					b.Attack = "none"
 					plans = append(plans, b)
-					for _, sp := range []string{"header:dev2", "hmac:dev2", "certchain:dev2", "entries:dev2", "entry0:dev2", "entrylast:dev2", "header:mfg2", "hmac:mfg2", "certchain:mfg2", "entries:mfg2", "entry0:mfg2", "swap-entries", "dup-entry", "reverse-entries", "drop-middle", "branch0", "branch1", "bad-headerhash"} {
+					for _, sp := range []string{"header:dev2", "hmac:dev2", "certchain:dev2", "entries:dev2", "entry0:dev2", "entrylast:dev2", "header:mfg2", "hmac:mfg2", "certchain:mfg2", "entries:mfg2", "entry0:mfg2", "swap-entries", "dup-entry", "reverse-entries", "drop-middle", "branch0", "branch1", "bad-headerhash", "sigpad1-last", "sigpad2-last", "sigpad16-last", "sigpad1-first"} {
 						s := base
 						s.Attack, s.Arg = "splice", sp
 						plans = append(plans, s)
@@ -316,6 +317,39 @@ func c04Run(env *Env, pl *C04Plan, collect *[]byte) {
 			o.Violate("C04", "owner-can-extend", pl.Key, "current owner could not extend: %v", err)
 		} else if f, pn := verify(xv); len(f) > 0 || pn != "" {
 			o.Violate("C04", "owner-can-extend", "result|"+pl.Key, "extended voucher fails %v %s", f, pn)
+		} else {
+			// history: a sale falls through and the same voucher object is extended
+			// to another buyer; the first result must remain what it was. Repeated
+			// for vouchers that were themselves produced in memory by 1..3 further
+			// extensions (their entry slices have grown by appending).
+			w, holder := v, ownerRole
+			for depth := 0; depth < 4; depth++ {
+				buyerA, buyerB := "att2", "att1"
+				if holder == "att2" {
+					buyerA, buyerB = "att1", "owner3"
+				}
+				x1, err1 := ExtendWith(w, s.Keys.Get(holder, cfg.Fam()), s.Keys.Get(buyerA, cfg.Fam()), cfg)
+				if err1 != nil {
+					o.Violate("C04", "owner-can-extend", "depth|"+pl.Key, "holder %s could not extend at depth %d: %v", holder, depth, err1)
+					break
+				}
+				before, _ := cbor.Marshal(x1)
+				_, err2 := ExtendWith(w, s.Keys.Get(holder, cfg.Fam()), s.Keys.Get(buyerB, cfg.Fam()), cfg)
+				after, _ := cbor.Marshal(x1)
+				o.Fault("extended-twice")
+				if err2 != nil {
+					o.Violate("C04", "owner-can-extend", "second|"+pl.Key, "holder could not extend a second time: %v", err2)
+					break
+				}
+				if !bytes.Equal(before, after) {
+					pub1, _ := x1.OwnerPublicKey()
+					wantA := s.Keys.Get(buyerA, cfg.Fam()).Key.Public()
+					o.Class = "EXTENSION-ALIASED"
+					o.Violate("C04", "extension-history", "second-extension-rewrites-first", "extending a voucher with %d entries (%d of them appended in memory) to a second buyer changed the voucher already extended to the first buyer; it still names the first buyer: %v", len(w.Entries), depth, pub1 != nil && wantA.(interface{ Equal(crypto.PublicKey) bool }).Equal(pub1))
+					return
+				}
+				w, holder = x1, buyerA
+			}
 		}
 		o.Class = "genuine-ok"
 		o.Nontrivial = pl.Chain >= 1
@@ -498,6 +532,23 @@ func c04Run(env *Env, pl *C04Plan, collect *[]byte) {
 				return
 			}
 			t.Entries = fv.Entries
+		case "sigpad1-last", "sigpad2-last", "sigpad16-last", "sigpad1-first":
+			// the signature octets of an entry in another encoding of the same
+			// integer (zero octets in front): only the next entry's hash would bind
+			// them, and the last entry has no successor
+			if len(t.Entries) == 0 {
+				applicable = false
+			} else {
+				i := len(t.Entries) - 1
+				if strings.HasSuffix(kind, "-first") {
+					i = 0
+				}
+				var n int
+				fmt.Sscanf(strings.TrimPrefix(kind, "sigpad"), "%d", &n)
+				e := t.Entries[i]
+				e.Signature = append(make([]byte, n), e.Signature...)
+				t.Entries[i] = e
+			}
 		case "drop-middle":
 			if len(t.Entries) < 3 {
 				applicable = false
